@@ -27,7 +27,7 @@ prop( 'C05', [ 'S-STATUS', 'D-VALIDATE', 'W-ATTR', 'T-ALLOWED', 'T-TYPENAMES', '
       not_decided='that values read back equal the converted values written (value/history dependent).',
       technique='constant typestate on a statement CFG with exception edges; dominance / must-pass-through with correlated branches; service feasibility by test folding; table interval containment' )
 
-prop( 'C12', [ 'T-CLIENT-TYPES', 'P-BUNDLE', 'P-FRESH', 'T-PATHSYNTAX', 'S-COMPLETE', 'T-OPOFFSET', 'T-PATHDEFAULTS', 'F-CLIENT', 'T-OPVALUES', 'K-TIMEOUT', 'K-VALIDATE', 'T-ATTROPS', 'T-METHODS', 'W-STRIPSET', 'T-OPTYPE', 'W-ASSERT', 'K-REPLIES', 'T-OPTEXT', 'K-DETAILS', 'K-READVAL', 'T-FRAGTEXT', 'K-TARGETS', 'K-SEQUENCE', 'W-LATEBIND', 'T-PATHCOMP' ],
+prop( 'C12', [ 'T-CLIENT-TYPES', 'P-BUNDLE', 'P-FRESH', 'T-PATHSYNTAX', 'S-COMPLETE', 'T-OPOFFSET', 'T-PATHDEFAULTS', 'F-CLIENT', 'T-OPVALUES', 'K-TIMEOUT', 'K-VALIDATE', 'T-ATTROPS', 'T-METHODS', 'W-STRIPSET', 'T-OPTYPE', 'W-ASSERT', 'K-REPLIES', 'T-OPTEXT', 'K-DETAILS', 'K-READVAL', 'T-FRAGTEXT', 'K-TARGETS', 'K-SEQUENCE', 'W-LATEBIND', 'T-PATHCOMP', 'T-BOOLTEXT' ],
       decides='T-OPVALUES: the effective options of the reader that splits a write\'s value list are comma separator, double-quote quoting and skipinitialspace (blank-padded lists mean the values they spell).  T-PATHSYNTAX also: format_path emits an element index at the component it follows (the symbolic branch flushes a pending index), so Foo[1].Boo formats and parses back to the same segments.  P-BUNDLE: in connector.issue the keep-collecting condition conjoins the size test with equality of both route_path and '
               'send_path with those of the bundle, every yielded record carries ( index, sender_context ) of its wire request, sender_context is '
               'always derived from index, and index advances at most once per operation and after every flushed bundle; T-PATHSYNTAX: every '
@@ -75,7 +75,7 @@ prop( 'C03', [ 'W-ATTR', 'D-VALIDATE', 'R-SNAPSHOT', 'D-TYPE', 'T-TYPENAMES', 'T
       not_decided='read-your-writes over request histories, slice index arithmetic, symbolic-name resolution, per-element isolation (value/history dependent).',
       technique='who-may-write analysis via service feasibility on the CFG; AST shape checks; table checks' )
 
-prop( 'C06', [ 'X-SERVICES', 'P-REPLYBIT', 'P-ONE', 'P-PROCEED', 'D-ECHO', 'S-STATUS', 'P-ROUTE', 'E-REPLY', 'T-CONTEXT', 'P-EACH', 'U-NULLADDR', 'R-REENTRANT', 'W-ITERDEL', 'P-MATCH', 'S-STANDIN' ],
+prop( 'C06', [ 'X-SERVICES', 'P-REPLYBIT', 'P-ONE', 'P-PROCEED', 'D-ECHO', 'S-STATUS', 'P-ROUTE', 'E-REPLY', 'T-CONTEXT', 'P-EACH', 'U-NULLADDR', 'R-REENTRANT', 'W-ITERDEL', 'P-MATCH', 'S-STANDIN', 'K-REOPEN' ],
       decides='X-SERVICES: for Object, Message_Router, Connection_Manager and Logix the registered service parsers, the services '
               'request() dispatches and the services produce() encodes agree, and every *_RPY constant is *_REQ | 0x80; '
               'P-REPLYBIT: on every path of every handler to the reply producer the reply bit is set at most once, exactly once on '
@@ -287,7 +287,7 @@ prop( 'C01', [ 'T-TYPES', 'L-AGREE', 'L-DEFAULT', 'L-CODEC', 'T-SEGMENTS', 'T-NC
                 'acceptance matching; spec-table comparison; linear normalisation' )
 
 prop( 'C14', [ 'L-SPEC', 'K-FORWARDS', 'L-AGREE', 'L-DEFAULT', 'L-CODEC', 'T-TYPES', 'T-SEGMENTS', 'T-NCP', 'K-NCPSTATE', 'A-OFFSETS', 'G-FRAME',
-               'S-STATUS', 'D-VALIDATE', 'W-ATTR', 'T-ALLOWED', 'T-ATTRKEYS', 'D-TYPE', 'X-SERVICES', 'P-REPLYBIT', 'S-EXT', 'G-INIT', 'K-STALEMEMO', 'F-STATUS', 'F-FRAG', 'K-FOWIDTH', 'L-FRESH', 'L-PADSIZE', 'L-TEXTCODEC', 'T-TYPENAMES', 'T-TYPEDLOOP', 'L-SPECTEXT', 'L-IDENT', 'L-SOCKADDR', 'P-EACH', 'K-LINKFMT', 'L-STRLEN', 'L-UNITS', 'L-STATUSDATA', 'K-DIRECTION', 'W-ITERDEL', 'F-STATUS', 'L-GALREPLY', 'K-RELEASE' ],
+               'S-STATUS', 'D-VALIDATE', 'W-ATTR', 'T-ALLOWED', 'T-ATTRKEYS', 'D-TYPE', 'X-SERVICES', 'P-REPLYBIT', 'S-EXT', 'G-INIT', 'K-STALEMEMO', 'F-STATUS', 'F-FRAG', 'K-FOWIDTH', 'L-FRESH', 'L-PADSIZE', 'L-TEXTCODEC', 'T-TYPENAMES', 'T-TYPEDLOOP', 'L-SPECTEXT', 'L-IDENT', 'L-SOCKADDR', 'P-EACH', 'K-LINKFMT', 'L-STRLEN', 'L-UNITS', 'L-STATUSDATA', 'K-DIRECTION', 'W-ITERDEL', 'F-STATUS', 'L-GALREPLY', 'K-RELEASE', 'K-REOPEN' ],
       decides='L-SPECTEXT: the fixed-width text field of the ListServices reply item ( name of service, 16 octets NUL padded ) is produced at the width the encapsulation specification states ( known finding AR: it is not ).  T-TYPENAMES / T-TYPEDLOOP as for C05 / C01.  spec-layout clause.  L-SPEC: for the messages an independent Logix client uses (Register Session, SendRRData/SendUnitData with '
               'null-address/unconnected and connection-id/connected-data items, Unconnected Send, Forward Open small and large, Forward '
               'Close, Read/Write Tag [Fragmented], Multiple Service Packet, Get/Set Attribute, List Identity item) the parser layout '
